@@ -1,6 +1,7 @@
 import Gonuts.Lemmas.Send
 import Gonuts.Lemmas.Sorter
 import Gonuts.Lemmas.SelectFixed
+import Gonuts.Lemmas.Blank
 /-!
   C18 — send hands over exactly the requested amount, fees included when asked.
   Pure part: coin selection, fee and split arithmetic of the wallet (`Model.Select`, `Model.Amount`),
@@ -467,6 +468,22 @@ example : NoWrap k6Mint true ([] ++ k6Active) ∧
     (3 : UInt64).toNat + (feesToReceive k6Mint.activePpk 3 true).toNat + feeOptN k6Mint true []
       + feeOptN k6Mint true k6Active < 2 ^ 64 ∧ (([] : List P) ++ k6Active).length < 2 ^ 63 :=
   ⟨⟨by decide, fun _ => by decide⟩, by decide, by decide⟩
+
+/-! ## calculateBlankOutputs (used by Melt; same file of pure helpers) -/
+
+/-- The integer function `calculateBlankOutputs` computes — exactly for `feeReserve < 2^48` and for powers of
+    two, where the float evaluation is provably this function (`blankOutputsCertain`; compared with the real
+    code on every run) — provides enough blank outputs: `feeReserve ≤ 2^n`. -/
+theorem blankOutputs_enough (feeReserve : UInt64) (h : feeReserve.toNat < 2 ^ 53) :
+    feeReserve.toNat ≤ 2 ^ calculateBlankOutputs feeReserve := calculateBlankOutputs_enough feeReserve h
+
+example : calculateBlankOutputs 0 = 0 ∧ calculateBlankOutputs 1 = 1 ∧ calculateBlankOutputs 5 = 3 ∧
+    calculateBlankOutputs 1024 = 10 ∧ calculateBlankOutputs 1025 = 11 := by decide
+/-- where Go's float evaluation is one short of the exact value (observed: 2^49 + 1 ↦ 49) the model says
+    "not certain" -/
+example : calculateBlankOutputs (UInt64.ofNat (2 ^ 49 + 1)) = 50 ∧
+    blankOutputsCertain (UInt64.ofNat (2 ^ 49 + 1)) = false ∧ blankOutputsCertain (UInt64.ofNat (2 ^ 63)) = true := by
+  decide
 
 /-! ## the sorters the correspondence uses -/
 
